@@ -666,6 +666,11 @@ func checkRequestIDValidator(c *report.Ctx) {
 		}
 	}
 	if inner == nil {
+		// the validator written as a handler type of its own: what serves a request is the ServeHTTP method of the
+		// concrete value the constructor returns (the mirror image of handlerFuncOfCtor)
+		inner = servingMethodOfCtor(c, outer)
+	}
+	if inner == nil {
 		c.Unresolved("ANCHOR", "L/rapi/middleware.AwsRequestIDValidator/closure", "validator closure calling next.ServeHTTP not found")
 		return
 	}
